@@ -89,15 +89,17 @@ def member13(term, i, W):
     return member(term, i, W, hm=lambda c, name: W.has(c, name))
 
 
-def member_fresh(term):
-    """documented meaning for an instance of a fresh class that derives from object only and has none of the probed methods"""
+def member_fresh(term, has=()):
+    """documented meaning for an instance of a fresh class that derives from object only and defines just the methods named in `has`"""
     k = term[0]
     if k == "obj":
         return True
+    if k == "HM":
+        return term[1] in has
     if k == "U":
-        return any(member_fresh(t) for t in term[1:])
+        return any(member_fresh(t, has) for t in term[1:])
     if k == "I":
-        return all(member_fresh(t) for t in term[1:])
+        return all(member_fresh(t, has) for t in term[1:])
     if k == "SS":
         return term[1][0] == "obj"
     return False          # a harness class, Exactly[...], HasMethod, Deferred harness classes
@@ -157,6 +159,9 @@ def make_run(W, shape, known_active=None):
 
         liar = c == "liar"
         twin = c == "twin"
+        callable_ = c == "callable"
+        if callable_:
+            c = n            # a fresh class below object that defines __call__ (and nothing else of interest)
         if liar:
             c = n            # type(v) is a plain class below object only; v.__class__ claims to be K1 (proxies, mocks): dispatch is on type(v)
         if twin:
@@ -170,6 +175,9 @@ def make_run(W, shape, known_active=None):
                     # (its module's name merely starts like the absent package's)
                     Liar = type("Liar", (), {"__class__": property(lambda self: W.K[1]), "__module__": "symxabsent_tools.x"})
                     cls, inst = Liar, Liar()
+                elif callable_:
+                    Cal = type("Cal", (), {"__call__": lambda self: None})
+                    cls, inst = Cal, Cal()
                 elif twin:
                     K1 = W.K[1]
                     ns_t = {"__module__": K1.__module__, "__qualname__": K1.__qualname__}
@@ -195,12 +203,12 @@ def make_run(W, shape, known_active=None):
             finally:
                 sys.modules.pop(DEFMOD, None)
                 sys.modules.pop(DEFMOD + ".inner", None)
-            m = z3.BoolVal(member_fresh(T)) if liar else member_twin(T, W) if twin else member13(T, c, W)
+            m = z3.BoolVal(member_fresh(T, has=("__call__",) if callable_ else ())) if (liar or callable_) else member_twin(T, W) if twin else member13(T, c, W)
             ran_t = out == ("ran", 0)
             sane = out in (("ran", 0), ("ran", 1))
             post = z3.And(z3.BoolVal(refl and sane), m == z3.BoolVal(got), (m == z3.BoolVal(inst_ok)) if inst_ok is not None else z3.BoolVal(True),
                           m == z3.BoolVal(ran_t))
-            info = dict(type=tstr(T), value_class=("a proper subclass of K1 with K1's own name" if twin else "a class whose instances report __class__ = K1" if liar else f"K{c}" if c != n else "object"), subclasscheck=got, isinstance=inst_ok,
+            info = dict(type=tstr(T), value_class=("a class that defines __call__" if callable_ else "a proper subclass of K1 with K1's own name" if twin else "a class whose instances report __class__ = K1" if liar else f"K{c}" if c != n else "object"), subclasscheck=got, isinstance=inst_ok,
                         dispatch=list(out), reflexive=refl)
             return Verdict(post, (), info, ["member" if got else "non-member"], nontrivial=got)
 
@@ -280,6 +288,9 @@ def gen_shapes(tier, seed):
     n, depth = (3, 2) if tier == "quick" else (4, 2)
     shapes = [dict(kind="member", n=n, t=t, c=c) for t in universe(n, depth) for c in list(range(n + 1)) + ["liar", "twin"]]
     g = generics(n)
+    K_ = [("K", i) for i in range(n)]
+    shapes += [dict(kind="member", n=n, t=t, c="callable") for t in (("HM", "__call__"), ("I", ("HM", "__call__"), ("obj",)), ("U", ("HM", "__call__"), K_[0]),
+                                                                       ("I", ("HM", "__call__"), ("SS", ("obj",))), ("HM", "hm"))]
     shapes += [dict(kind="pair", n=n, s=s, t=t) for s in g for t in g]
     K = [("K", i) for i in range(n)]
     twos = [(("Def", 0), ("Def", 1)), (("Def", 1), ("DefSub", 0)), (("Ex", K[0]), ("Ex", K[1])), (("SS", K[0]), ("SS", K[1])),
